@@ -382,7 +382,14 @@ func (g *G) assignStmt() {
 	}
 	switch {
 	case t.IsInteger():
-		switch n := g.r.Intn(10); {
+		switch n := g.r.Intn(11); {
+		case n == 10:
+			// the variable plus and minus several constants, assigned to itself: chains of constant additions on one line
+			chain := lv
+			for k := g.r.Range(2, 4); k > 0; k-- {
+				chain += core.Pick(g.r, []string{" + ", " - "}) + fmt.Sprint(g.r.Range(1, 3))
+			}
+			g.line("%s = %s", lv, chain)
 		case n < 3:
 			g.line("%s%s", lv, core.Pick(g.r, []string{"++", "--"}))
 		case n < 7:
